@@ -96,7 +96,20 @@ def gen(rng, tier):
     for i in range(n):
         klass = CLASSES[i % len(CLASSES)]
         rows = _field(rng, klass)
-        out.append(dict(klass=klass, rows=[[lib.show_rat(x) for x in r] for r in rows]))
+        case = dict(klass=klass, rows=[[lib.show_rat(x) for x in r] for r in rows])
+        # what the caller hands to pack2d: float32 (as read from a file), float64 values that round to those float32
+        # values (each moved by a quarter of a float32 spacing), or - for whole numbers that fit - an integer array
+        flat = [x for r in rows for x in r]
+        k = rng.random()
+        if k < 0.2:
+            case['indtype'] = 'd'
+            case['nudge'] = [rng.choice([-1, 0, 1]) for _ in flat]
+        elif k < 0.35 and all(x.denominator == 1 for x in flat):
+            m = max(abs(x) for x in flat)
+            case['indtype'] = 'b' if m <= 127 else ('h' if m <= 32767 else ('i' if m < 2 ** 31 else None))
+            if case['indtype'] is None:
+                del case['indtype']
+        out.append(case)
     out += _file_cases(rng, 6 if tier == 'quick' else 100)
     return out
 
@@ -106,7 +119,8 @@ def _file_cases(rng, n):
     out = []
     for _ in range(n):
         c = arlfmt.gen(rng)
-        out.append(dict(kind='file', spec=c, rows=[[0, 1]]))
+        # half of the time another packed file (its own levels and variables) is opened before the first one is read
+        out.append(dict(kind='file', spec=c, rows=[[0, 1]], other=arlfmt.gen(rng) if rng.random() < 0.5 else None))
     return out
 
 
@@ -126,10 +140,18 @@ def _impl_file(case):
     b, meta = arlfmt.build(c)
     p = os.path.join(camx.tmpdir(), 'c20_%d_%d.arl' % (os.getpid(), np.random.randint(1 << 30)))
     open(p, 'wb').write(b)
+    p2 = None
+    if case.get('other'):
+        p2 = p + '.other'
+        open(p2, 'wb').write(arlfmt.build(case['other'])[0])
     try:
         with lib.pnc_warnings():
             try:
-                v = arlfmt.view(arlpackedbit(p), c)
+                fa = arlpackedbit(p)
+                if p2:
+                    fb = arlpackedbit(p2)
+                    fb.variables[(case['other']['lay'] or case['other']['sfc'])[0]][...]
+                v = arlfmt.view(fa, c)
             except lib.HarnessError:
                 raise
             except Exception as e:
@@ -139,6 +161,8 @@ def _impl_file(case):
         return v
     finally:
         os.remove(p)
+        if p2 and os.path.exists(p2):
+            os.remove(p2)
 
 
 def _oracle_file(case, res):
@@ -180,8 +204,16 @@ def impl(case):
     rows = _rows(case)
     x = np.array([[float(v) for v in r] for r in rows], dtype='f')
     assert all(Fraction(float(x[i, j])) == rows[i][j] for i in range(x.shape[0]) for j in range(x.shape[1]))
+    if case.get('indtype') == 'd':
+        xin = x.astype('d') + np.array(case['nudge'], dtype='d').reshape(x.shape) * np.spacing(np.abs(x)).astype('d') / 4
+        if not np.array_equal(xin.astype('f'), x):
+            xin = x.astype('d')
+    elif case.get('indtype'):
+        xin = x.astype(case['indtype'])
+    else:
+        xin = x
     try:
-        c, prec, nexp, var1, ksum = pack2d(x)
+        c, prec, nexp, var1, ksum = pack2d(xin)
         b = c.view('uint8')
         u = unpack(c[None], np.array([var1]), np.array([nexp]))[0]
     except Exception as e:
@@ -254,6 +286,14 @@ def classify(case, failure, model_out):
     if st == 'ok' and kv.get('negtrunc') == '1' and kv.get('given') == kv.get('nexp') and failure.startswith('error'):
         return KEY_NEG
     return None
+
+
+def classify_full(case, failure, model_out, res, diff):
+    # the listed finding is mirrored by the model: it is that finding only while the implementation's bytes, exponent and
+    # decoded values are still exactly the model's
+    if diff:
+        return None
+    return classify(case, failure, model_out)
 
 
 def nontrivial(case, res):
